@@ -26,9 +26,11 @@ func checkC19(w *World, r *Report) {
 	r.Rule("C19.sameprecision", "P6", "sibling agreement: the rate of a configuration has no rounding / truncation operation on its backward slice that the emission formula of the same configuration (AmountToMint) does not have", 3)
 	r.Rule("C19.guard", "P5", "the division by the supply is dominated by the false edge of supply <= 0, whose true edge returns zero", 2)
 	r.Rule("C19.operands", "P6,P8", "the divisor originates from bank.GetSupply(params.MintDenom), the period from the selection over the stored state, the time from the block header; the constant year evaluates to 365 x 24 h; the query returns this value", 5)
+	r.Rule("C19.loopvar", "P4", "the module declares a Go version with one variable per loop: no address of such a variable (or of a field of it) and no function literal over it outlives the iteration in which it was taken (stored, put into a map, flowing out of the loop, deferred, handed to a function that stores it) - otherwise the matching element silently becomes the last element; positive and negative controls", 6)
 	if !ro.checkFloors(r) {
 		return
 	}
+	loopVarRule(w, r, "C19.loopvar", "cfeminter")
 	mci := w.Func("x/cfeminter/types.Minter.CalculateInflation")
 	gci := w.Func("x/cfeminter/keeper.Keeper.GetCurrentInflation")
 	if mci == nil || gci == nil {
